@@ -111,8 +111,8 @@ pub fn check_c17(instance: Value, inst: &RefInstance) -> (Vec<Violation>, bool, 
                     out.push(viol("C17", "C17.depot_location", format!("depot {} at {} vs {}", rd.id, loc_id(dep.location()), inst.locs[rd.loc])));
                 }
                 if inst.depots_defaulted {
-                    if (nw.total_capacity_of(d) as u64) < needed_upper_bound.min(inst.n_segments) {
-                        out.push(viol("C17", "C17.default_depot_capacity", format!("defaulted depot {} has capacity {}", rd.id, nw.total_capacity_of(d))));
+                    if (nw.total_capacity_of(d) as u64) < needed_upper_bound {
+                        out.push(viol("C17", "C17.default_depot_not_unlimited", format!("depots are not given, so {} is unlimited; it hosts only {} vehicles while covering the demand may need {}", rd.id, nw.total_capacity_of(d), needed_upper_bound)));
                     }
                     for (&vt, &t) in &ad.type_to_ref {
                         if nw.capacity_of(d, vt) != nw.total_capacity_of(d) {
